@@ -1,0 +1,13 @@
+//go:build verif
+
+package pubsub
+
+// VerifCapLen returns the deque's tracker.cap() (for a deque built with
+// QueueOptions this is the current, dynamic soft quota), tracker.len()
+// and the closed flag, read while holding the deque's lock. It is only
+// compiled with the "verif" build tag and modifies nothing.
+func (dq *Deque[T]) VerifCapLen() (capacity int, length int, closed bool) {
+	dq.mtx.Lock()
+	defer dq.mtx.Unlock()
+	return dq.tracker.cap(), dq.tracker.len(), dq.closed
+}
